@@ -56,6 +56,9 @@ def _run_chunk(args):
             o["reads"] = [back(t) for t in o["reads"]]
             o["target"] = [back(t) for t in o["target"]]
             o["mech"] = j.get("mech")
+        if o.get("exc") == "InvalidSyntaxException" and not stmt_drv.accepts(sql, dia):
+            out.append({"skip": "parser rejects"})      # the parser itself rejects the text: outside the quantifier
+            continue
         sp = j.get("opts", {}).get("spell")
         if sp:
             # projection: a statement-local name is reported as written (less its quotes); the specification knows it by
@@ -209,8 +212,9 @@ def run(chk):
     from .. import render_col
     jobs = []
     for c in cases:
-        f1 = rnd.choice(render_col.FORMS1)
-        f2 = rnd.choice(render_col.FORMS2)
+        # a fixed form, or (half of the time) a random expression tree of depth <= 3 over the item's references
+        f1 = rnd.choice(render_col.FORMS1) if rnd.random() < 0.5 else "tree:%d" % rnd.randrange(1 << 30)
+        f2 = rnd.choice(render_col.FORMS2) if rnd.random() < 0.5 else "tree:%d" % rnd.randrange(1 << 30)
         jobs.append({"prog": c["prog"], "flow": c["flow"], "opts": {"form1": f1, "form2": f2, "as_kw": rnd.random() < 0.5,
                                                                     "join": rnd.choice(["join", "left join", "cross join", "comma", "join"])},
                      "metadata": False})
@@ -243,7 +247,7 @@ def run(chk):
         raise core.MachineryError("no accepted result to run the binding self-test on")
     chk.cov["rule"] = ("cases = (program, expression form, join style): %d programs printed by TLC from Col.tla's exhaustive configurations (a seeded 6000 of the 13.7k in quick; 2 relations incl. derived "
                        "tables, 2 items, adversarial aliases, column list, UNION ALL, literals) + %d simulated (3 relations, 3 items, two-reference "
-                       "expressions); each item rendered under one of 9 / 6 expression forms (all forms for the exhaustive set in thorough); "
+                       "expressions); each item rendered under one of 9 / 6 fixed expression forms or a random expression tree of depth <= 3 (functions, CAST, CASE, arithmetic, concatenation, comparison, parentheses, window functions); "
                        "the reported (source, target) pairs decided by Trace_Col against Flow. non-trivial = more than one relation or a derived table."
                        % (n_exh, len(cases) - n_exh))
     chk.assumptions += ["an expression is the set of column references it contains: forms are enumerated by the renderer, not by TLC",
